@@ -65,7 +65,9 @@ EmbedSites(kv) ==
    Site("attribute_certification_third_party.issuer_fingerprint_subpacket", "fingerprint", "signer")}
   \cup (IF kv = 6 THEN {Site("data_signature.issuer_key_id_subpacket", "absent", "signer"),
                         Site("ops_v6", "fingerprint", "signer"), Site("ops_v6.custom_subpackets", "fingerprint", "signer"),
-                        Site("pkesk_v6", "fingerprint", "recipient_subkey")}
+                        Site("pkesk_v6", "fingerprint", "recipient_subkey"),
+                        \* a v6 recipient inside a v3 PKESK (SEIPDv1 message): its key id, i.e. the high 64 bits of the fingerprint
+                        Site("pkesk_v3", "keyid", "recipient_subkey")}
         ELSE {Site("data_signature.issuer_key_id_subpacket", "keyid", "signer"),
               Site("certification_third_party.issuer_key_id_subpacket", "keyid", "signer"),
               Site("attribute_certification_third_party.issuer_key_id_subpacket", "keyid", "signer"),
